@@ -75,6 +75,12 @@ D = {
     "C21d": ("fsolve: `converged = True; if error >= 1: <loop> else: converged = False` - equivalent over the reals, not for NaN", "a residual that is NaN/inf already at the initial guess (excitation table left, sqrt/log force law out of domain): success=True, no warning"),
     "C24d": ("Spring.assembler_callback: `self.l_ref = self.l_ref or default`", "a spring whose rest length / angle is exactly 0 (explicit 0, or defaulted on a joint with angle0 = 0): replaced at the first assembly of a two-point interaction and at every restart"),
     "C26d": ("RigidBody.r_OP returns q[:3] (a view of the caller's array) for a zero offset (same idea as seeded/C26c, found independently)", "the caller updates q in place and asks again for the old values: cache hit on a live view"),
+    "C05d": ("Frame.B_Omega / B_Psi return the inertial-frame spin skew2ax(A_t A^T) (B_Psi stays its exact time derivative, Frame alone looks self-consistent)", "an orientation-constraining joint on a prescribed-motion Frame whose rotation axis moves; g_dot and g_ddot are off, g and W_g are not (caught by C04, the provider side of the subsystem contract)"),
+    "C12d": ("Harsch2021: B_n and B_n_B_Gamma take |B_Gamma0| from a memo keyed on the identity of the B_Gamma0 array", "the same law object called again with the same array object after its contents were overwritten in place"),
+    "C16d": ("consistent_initial_conditions warm-starts la_N0 / la_F0 from the values the previous assembly stored on the system", "a second assembly (set_new_initial_state) in which a contact that carried force before is open or separating: it keeps the old force"),
+    "C18d": ("compute_I_F: running counter instead of the lookup of the normal index in the active set (same slip as seeded/C18b, found independently)", "Moreau, a frictionless contact assembled before a frictional one, both closed"),
+    "C20d": ("ScipyIVP.solve sizes u_dot, la_g, la_gamma, la_c with len(t_eval) instead of len(sol.t) (same slip as seeded/C20b, found independently)", "a run truncated by the external integrator"),
+    "C29d": ("export_contr builds the frame file with Path.with_suffix('.vtu')", "a contribution or file name that contains a dot (pm_0.5, body_v1.2): every frame is written to the same file"),
     "C22b": ("fixed_point_iteration calls fun(x) without the defensive copy", "a fixed-point map that updates its argument in place (DualStormerVerlet's own map with accelerated=False does)"),
 }
 rows = []
